@@ -2,7 +2,7 @@
 
 PID = "C12"
 CLAIM = True
-MANIFEST_TEXT = ("Lean 4 theorems (25 obligations) about a line-by-line transcription of readINITree, ParameterTree's "
+MANIFEST_TEXT = ("Lean 4 theorems (27 obligations) about a line-by-line transcription of readINITree, ParameterTree's "
                  "operator[]/hasKey/hasSub/sub (const and non-const)/get, readOptions/readNamedOptions and Parser<T>.  The documented INI "
                  "dialect is formalised as an item grammar (blank, comment, [group] header, assignment with blanks, either quote, "
                  "multi-line value, trailing comment) with an explicit lexical predicate; proved for ALL documents of the dialect, all "
@@ -14,7 +14,8 @@ MANIFEST_TEXT = ("Lean 4 theorems (25 obligations) about a line-by-line transcri
                  "(general and two-source form with a static prefix-freeness hypothesis); the parser terminates on every byte string; a "
                  "source whose stream fails is reported (IOError), never accepted; readOptions/readNamedOptions map "
                  "pairs/positionals/named parameters as documented and report missing, unknown, superfluous, value-less, "
-                 "already-specified, help; get<integer> accepts exactly blanks[sign]digits blanks in range and returns that value "
+                 "already-specified, help, and for EVERY argument vector readNamedOptions equals a set-based reading of the "
+                 "documentation (options_spec_all_vectors); get<integer> accepts exactly blanks[sign]digits blanks in range and returns that value "
                  "(round trip with the canonical text for every 16/32/64-bit type, also for fixed-size ranges and vectors), fixed-size "
                  "ranges accept exactly n literals, string arrays exactly n words, char exactly one non-blank character, split() = the "
                  "maximal runs of non-blanks (declarative definition), vector/bitset/string characterised by iff, default only when the "
@@ -27,12 +28,15 @@ MANIFEST_NOTE = ("Trusted: Lean kernel (+propext/Classical.choice/Quot.sound), t
                  "execution only; no translator), the harness' reference tree / strict dialect recogniser / numeric recognisers "
                  "(std::from_chars for floating values), g++/libstdc++/glibc, ASan/UBSan.  operator>> is libstdc++'s: its "
                  "classic-locale integer, floating, word and char extraction are modelled; float/double values are compared bit-exactly "
-                 "through a correctly-rounded conversion in the model but no theorem is stated about floating point.  Hostile/"
+                 "through a correctly-rounded conversion in the model; proved for floating targets is only that acceptance implies the "
+                 "literal syntax (malformed_float_is_range_error_partial), nothing about the rounded value.  Hostile/"
                  "out-of-dialect byte streams: only 'no crash, no hang (60 s alarm), success or Dune exception' is checked, the model is "
                  "not compared there (it is nevertheless total: parse_total).  Not claimed: '#' inside quoted values, a quote character "
                  "inside a value quoted with the same character, a negative literal for an unsigned target (answer masked as 'noclaim'), "
-                 "names that are both value and group (modelled, oracle abstains), parse_render for overwrite=false, long double, "
-                 "std::array<bool,n>.  The model describes the repaired code (repo commits 27625ff parseRange trailing-text check, "
+                 "names that are both value and group (modelled, oracle abstains), long double, std::array<bool,n>, the C-library "
+                 "locale (setlocale; only C/POSIX is installed - the global C++ locale is varied).  parse_render is stated for "
+                 "overwrite=true; for overwrite=false into an empty tree the same values follow from overwrite_flag_spec and the "
+                 "same key order from keys_in_first_appearance_order.  The model describes the repaired code (repo commits 27625ff parseRange trailing-text check, "
                  "deabf63 empty-string test in the quote loop, d4ed0d8 failing input stream = fixes/C12_*.patch).")
 TECHNIQUE = "Lean 4 proof over a transcribed parser/tree/lexer model + differential correspondence with independent reference oracles"
 TRANSLATORS = []
